@@ -20,9 +20,9 @@ func init() {
 				"Assumption A1: closing a non-blocking *os.File wakes a blocked Read with os.ErrClosed. Not decided: descriptor and goroutine counts themselves.",
 			Rule:        "one obligation per (error return, earlier acquisition) pair, per closing site, per reader-loop fact, per go statement",
 			Assumptions: []string{"go/types + go/ssa", "A1 (Go runtime poller wakes a blocked Read when the file is closed)", "close(2) of the inotify descriptor releases all its kernel watches"},
-			MinObl:      7,
+			MinObl:      3,
 		},
-		Configs: tiered(linuxQuick, concat(linuxAll, kqueueQuick)),
+		Configs: tiered(linuxQuick, concat(linuxAll, kqueueQuick, fenQuick, windowsQuick)),
 		Run:     runC13,
 	})
 }
@@ -34,6 +34,8 @@ var acquireFns = map[string]string{
 	"golang.org/x/sys/unix.Pipe":         "pipe",
 	"golang.org/x/sys/unix.Pipe2":        "pipe",
 	"golang.org/x/sys/unix.Open":         "fd",
+	"golang.org/x/sys/unix.NewEventPort": "fd",
+	"golang.org/x/sys/windows.CreateIoCompletionPort": "fd",
 }
 
 func runC13(p *Program, e *Engine, r *Result, tier string) {
